@@ -54,6 +54,29 @@ pub mod pre {
     pub struct SyncWrapper;
     impl SyncWrapper { pub fn new<T>(t: T) -> (r: T) ensures r == t { t } }
 
+    /// http_body::SizeHint.
+    pub struct SizeHint { pub lower: u64, pub upper: Option<u64> }
+    impl SizeHint {
+        pub fn with_exact(n: u64) -> (r: SizeHint) ensures r.lower == n, r.upper == Some(n) { SizeHint { lower: n, upper: Some(n) } }
+    }
+    /// chunker::Reader as seen from body.rs: its own contract is proved in unit `chunker`.
+    #[verifier::external_body]
+    #[verifier::reject_recursive_types(D)]
+    #[verifier::reject_recursive_types(E)]
+    pub struct Reader<D, E> { _d: std::marker::PhantomData<Box<(D, E)>> }
+    impl<D, E> Reader<D, E> {
+        pub uninterp spec fn queued_bytes(&self) -> nat;
+        pub uninterp spec fn size_hint_spec(&self) -> SizeHint;
+        pub uninterp spec fn eos_spec(&self) -> bool;
+        pub uninterp spec fn poll_rel(&self, r: Poll<Option<Result<D, E>>>, after: Self) -> bool;
+        #[verifier::external_body]
+        pub fn size_hint(&self) -> (r: SizeHint) ensures r == self.size_hint_spec() { unimplemented!() }
+        #[verifier::external_body]
+        pub fn is_end_stream(&self) -> (r: bool) ensures r == self.eos_spec() { unimplemented!() }
+        #[verifier::external_body]
+        pub fn poll_next(&mut self, cx: &mut Context) -> (r: Poll<Option<Result<D, E>>>) ensures old(self).poll_rel(r, *final(self)) { unimplemented!() }
+    }
+
     /// `Box<dyn Entity<Data = D, Error = E>>`: only `get_range` is used by the streams.
     #[verifier::external_body]
     #[verifier::reject_recursive_types(D)]
